@@ -22,6 +22,9 @@ Ops == CASE MODE = "compose" -> {"compose"}
          [] MODE = "arith" -> {"add", "sub", "mul", "div"}
          [] MODE = "reduce" -> {"reduce"}
          [] MODE = "arithaff" -> {"neg", "add_aff", "sub_aff", "mul_aff", "div_aff"}
+         [] MODE = "prune" -> {"eliminate"}
+         [] MODE = "pruneg" -> {"compose_prune", "elim_compose_elim"}
+         [] MODE = "prunea" -> {"elim_add", "elim_sub"}
          [] OTHER -> {}
 
 Init == stage = "init" /\ f = None /\ g = None /\ h = None /\ op = "" /\ aff = None /\ sched = <<>>
@@ -32,15 +35,21 @@ PickF == \E x \in FSet, lay \in LAYOUTS :
     /\ f' = [abs |-> x, lay |-> lay, t |-> BuildTree(x, K, lay)]
     /\ stage' = "f" /\ UNCHANGED <<g, h, op, aff, sched>>
 PickG == \E x \in GSet :
-    /\ stage = "f" /\ MODE \in {"compose", "arith"}
+    /\ stage = "f" /\ MODE \in {"compose", "arith", "pruneg", "prunea"}
     /\ g' = [abs |-> x, lay |-> "dfs", t |-> BuildTree(x, K, "dfs")]
     /\ stage' = "fg" /\ UNCHANGED <<f, h, op, aff, sched>>
 Apply == \E o \in Ops :
-    /\ (stage = "fg" /\ MODE \in {"compose", "arith"}) \/ (stage = "f" /\ MODE = "reduce")
+    /\ \/ (stage = "fg" /\ MODE \in {"compose", "arith"}) \/ (stage = "f" /\ MODE = "reduce")
+       \/ (stage = "f" /\ MODE = "prune") \/ (stage = "fg" /\ MODE \in {"pruneg", "prunea"})
     /\ op' = o
     /\ h' = CASE o = "compose" -> Compose(f.t, g.t)
               [] o \in {"add", "sub", "mul", "div"} -> Arith(o, f.t, g.t)
               [] o = "reduce" -> Reduce(f.t)
+              [] o = "eliminate" -> Eliminate(f.t)
+              [] o = "compose_prune" -> ComposePruned(f.t, g.t)
+              [] o = "elim_compose_elim" -> Eliminate(Compose(Eliminate(f.t), g.t))
+              [] o = "elim_add" -> Arith("add", Eliminate(f.t), g.t)
+              [] o = "elim_sub" -> Arith("sub", Eliminate(f.t), g.t)
     /\ stage' = "done" /\ UNCHANGED <<f, g, aff, sched>>
 
 \* tree (op) affine: the operator is applied to every terminal (tree first); -tree
@@ -82,6 +91,24 @@ LawArith == (stage = "done" /\ op \in {"add", "sub", "mul", "div"}) => PwlEqUpTo
 LawArithAff == (stage = "done" /\ MODE = "arithaff") =>
     PwlEq(PH0, IF op = "neg" THEN {[cons |-> p.cons, out |-> NegOut(p.out)] : p \in PF0}
                ELSE LiftPieces(SubSeq(op, 1, 3), PF0, {[cons |-> {}, out |-> Out(aff.m, aff.b, aff.q)]}), D)
+\* C03: pruning never changes the function (differences only on regions with empty interior)
+Expected == CASE op = "eliminate" -> PF0
+              [] op \in {"compose_prune", "elim_compose_elim"} -> ComposePieces(PF0, PG0)
+              [] op = "elim_add" -> LiftPieces("add", PF0, PG0)
+              [] op = "elim_sub" -> LiftPieces("sub", PF0, PG0)
+LawPrune == (stage = "done" /\ MODE \in {"prune", "pruneg", "prunea"}) => PwlEqUpToThin(PH0, Expected, D)
+\* C05: cached witnesses lie in the closed path region; nodes marked infeasible have no interior
+CacheSound(t) ==
+    \A i \in Occ(t) \ {t.root} :
+        /\ t.nodes[i].st = "W" => \A j \in 1..Len(t.nodes[i].w) : SatAll(ClosedRegion(t, i), t.nodes[i].w[j], 2)
+        /\ t.nodes[i].st = "X" => ~HasInterior(ClosedRegion(t, i), t.dim)
+LawCache == (stage = "done" /\ MODE \in {"prune", "pruneg", "prunea"}) => CacheSound(h)
+\* C06: on total trees elimination is effective and idempotent
+TotalTree(t) == \A i \in Occ(t) : ~t.nodes[i].leaf => \A sl \in 1..t.k : t.nodes[i].ch[sl] # NONE
+LawEffective == (stage = "done" /\ MODE \in {"prune", "pruneg", "prunea"} /\ op \in {"eliminate", "elim_compose_elim"} /\ TotalTree(f.t) /\ (op = "eliminate" \/ TotalTree(g.t))) =>
+    /\ \A i \in Occ(h) \ {h.root} : Feas(ClosedRegion(h, i), D)
+    /\ \A i \in Occ(h) \ {h.root} : ~h.nodes[i].leaf => NumChildren(h.nodes[i]) # 1
+    /\ ObsTree(Eliminate(h)) = ObsTree(h)
 \* C09: the closed path polytope reported for a node (what PolyhedraGen builds) contains the node's routing region, and its
 \* interior is routed through the node; distinct terminals have disjoint interiors
 LawRegions == (stage = "done" /\ MODE = "regions") =>
@@ -99,8 +126,20 @@ LawReduce == (stage = "done" /\ op = "reduce") =>
 WellFormed(t) == NodeDimsOK(t) /\ DecisionRowsOK(t) /\ LeafIffNoChildren(t) /\ Cardinality(OutDims(t)) <= 1
 ResultWellFormed == stage = "done" => (WellFormed(f.t) => WellFormed(h))
 
+Step(o) == [op |-> o, rhs |-> <<>>, aff |-> [m |-> <<>>, b |-> <<>>, q |-> 1]]
+StepG(o) == [op |-> o, rhs |-> ScriptOf(g'.abs, K, "dfs"), aff |-> [m |-> <<>>, b |-> <<>>, q |-> 1]]
+HistorySteps ==
+    CASE op' = "eliminate" -> <<Step("eliminate")>>
+      [] op' = "compose_prune" -> <<StepG("compose_prune")>>
+      [] op' = "elim_compose_elim" -> <<Step("eliminate"), StepG("compose"), Step("eliminate")>>
+      [] op' = "elim_add" -> <<Step("eliminate"), StepG("add")>>
+      [] op' = "elim_sub" -> <<Step("eliminate"), StepG("sub")>>
 Emit ==
     (EMIT /\ stage' = "done") =>
+        IF MODE \in {"prune", "pruneg", "prunea"}
+        THEN PrintT("SCRIPT " \o ToJson([fam |-> "afftree", k |-> K, q |-> 1, mode |-> "history", lhs |-> ScriptOf(f'.abs, K, f'.lay),
+                                          steps |-> HistorySteps, faults |-> <<>>]))
+        ELSE
         PrintT("SCRIPT " \o ToJson(
             [fam |-> IF MODE = "regions" THEN "regions" ELSE "afftree", sched |-> sched', k |-> K, q |-> IF op' \in {"div", "div_aff"} THEN 12 ELSE 1, mode |-> MODE,
              lhs |-> ScriptOf(f'.abs, K, f'.lay),
